@@ -379,6 +379,101 @@ Proof.
     + unfold del_keys in Hf. congruence.
 Qed.
 
+(* --- a DEL whose context dies while its first command is on the wire *)
+Lemma task_keys_singletons n l : flat_map tkeys (map (fun k => first_task [k] n) l) = l.
+Proof. induction l as [|k l IH]; cbn; [reflexivity|]. rewrite IH. reflexivity. Qed.
+
+(* every key of the invalidation is in the DEL that was on the wire or handed to the cleaner *)
+Lemma die_split_covers c keys n0 k :
+  In k keys ->
+  In k (fst (die_split c keys n0)) \/ In k (flat_map tkeys (snd (die_split c keys n0))).
+Proof.
+  intro Hk. unfold die_split.
+  set (ks0 := filter (fun k0 => node_of c k0 =? n0) keys).
+  set (others := flat_map _ (nodes_of c keys)).
+  assert (Ho : node_of c k <> n0 -> In k (flat_map tkeys others)).
+  { intro Ne. unfold others. apply in_flat_map.
+    assert (Hn : In (node_of c k) (nodes_of c keys)).
+    { unfold nodes_of. apply nodup_In. apply in_map. exact Hk. }
+    destruct (node_of c k =? n0) eqn:E; [apply Z.eqb_eq in E; contradiction|].
+    assert (Ht : In k (flat_map tkeys (del_tasks c (filter (fun k0 => node_of c k0 =? node_of c k) keys) (node_of c k)))).
+    { rewrite del_tasks_keys. apply filter_In. split; auto. apply Z.eqb_refl. }
+    apply in_flat_map in Ht. destruct Ht as (tk & T1 & T2).
+    exists tk. split; auto. apply in_flat_map. exists (node_of c k). split; auto. rewrite E. exact T1. }
+  assert (H0 : node_of c k = n0 -> In k ks0).
+  { intro E. apply filter_In. split; auto. apply Z.eqb_eq. exact E. }
+  destruct (Z.eq_dec (node_of c k) n0) as [E|Ne].
+  - specialize (H0 E). destruct (ccluster c && (1 <? Z.of_nat (length ks0))); cbn [fst snd]; auto.
+    rewrite <- (firstn_skipn 1 ks0) in H0. apply in_app_or in H0. destruct H0 as [H0|H0]; auto.
+    right. rewrite flat_map_app. apply in_or_app. left. rewrite task_keys_singletons. exact H0.
+  - specialize (Ho Ne). right. destruct (ccluster c && (1 <? Z.of_nat (length ks0))); cbn [snd]; auto.
+    rewrite flat_map_app. apply in_or_app. auto.
+Qed.
+
+(* the DEL on the wire carries keys of the invalidation that live on node n0, nothing else *)
+Lemma die_split_first c keys n0 k :
+  In k (fst (die_split c keys n0)) -> In k keys /\ node_of c k = n0.
+Proof.
+  unfold die_split. set (ks0 := filter (fun k0 => node_of c k0 =? n0) keys).
+  assert (A : In k ks0 -> In k keys /\ node_of c k = n0).
+  { intro H. apply filter_In in H. destruct H as [H1 H2]. apply Z.eqb_eq in H2. auto. }
+  destruct (ccluster c && (1 <? Z.of_nat (length ks0))); cbn [fst]; auto.
+  intro H. apply A. rewrite <- (firstn_skipn 1 ks0). apply in_or_app. auto.
+Qed.
+
+Lemma owe_dirty l s k :
+  dirty (owe l s) k = dirty s k || mem_key k (flat_map tkeys l).
+Proof.
+  unfold dirty, owe, pending_keys. sproj. rewrite flat_map_app, mem_key_app.
+  destruct (mem_key k (flat_map tkeys (pending s))), (mem_key k (flat_map tkeys l)), (mem_key k (lost s)); reflexivity.
+Qed.
+
+Lemma die_keys_frame c keys n0 s :
+  db (die_keys c keys n0 s) = db s /\ dbFault (die_keys c keys n0 s) = dbFault s
+  /\ cfault (die_keys c keys n0 s) = cfault s /\ clock (die_keys c keys n0 s) = clock s.
+Proof.
+  unfold die_keys, owe. sproj. apply del_on_node_frame.
+Qed.
+
+Lemma die_keys_sub c keys n0 s k e :
+  find k (cache (die_keys c keys n0 s)) = Some e -> find k (cache s) = Some e.
+Proof. unfold die_keys, owe. sproj. apply del_on_node_sub. Qed.
+
+(* never skipped: every key of the invalidation is gone or left to the cleaner *)
+Lemma die_keys_hit c keys n0 s k :
+  In k keys ->
+  find k (cache (die_keys c keys n0 s)) = None \/ In k (pending_keys (die_keys c keys n0 s)).
+Proof.
+  intro Hk. unfold die_keys. destruct (die_split_covers c keys n0 k Hk) as [H|H].
+  - destruct (die_split_first c keys n0 k H) as [_ Hn].
+    destruct (del_on_node_hit c n0 (fst (die_split c keys n0)) s k H Hn) as [H1 H2].
+    destruct (node_down s n0).
+    + right. unfold owe, pending_keys. sproj. rewrite flat_map_app. apply in_or_app. left. apply H2. reflexivity.
+    + left. unfold owe. sproj. apply H1. reflexivity.
+  - right. unfold owe, pending_keys. sproj. rewrite flat_map_app. apply in_or_app. right. exact H.
+Qed.
+
+Lemma die_keys_dirty c keys n0 s k :
+  dirty (die_keys c keys n0 s) k = false ->
+  dirty s k = false \/ find k (cache (die_keys c keys n0 s)) = None.
+Proof.
+  unfold die_keys. rewrite owe_dirty. intro H. apply orb_false_iff in H. destruct H as [H _].
+  apply del_on_node_dirty in H. unfold owe. sproj. exact H.
+Qed.
+
+Lemma die_keys_coh c keys n0 s :
+  cohx (fun k => mem_key k keys) s -> coh (die_keys c keys n0 s).
+Proof.
+  intros H k e Hl Hd _.
+  destruct (die_keys_frame c keys n0 s) as (Hdb & _ & _ & Hck).
+  rewrite Hdb. rewrite Hck in Hl. apply lookup_some in Hl. destruct Hl as [Hf Hlv].
+  destruct (mem_key k keys) eqn:M.
+  - exfalso. apply mem_key_In in M. destruct (die_keys_hit c keys n0 s k M) as [G|G]; [congruence|].
+    apply mem_key_In in G. unfold dirty in Hd. rewrite G in Hd. discriminate.
+  - destruct (die_keys_dirty c keys n0 s k Hd) as [G|G]; [|congruence].
+    apply H; auto. apply lookup_intro; auto. eapply die_keys_sub; eauto.
+Qed.
+
 (* --- the cleaner *)
 Lemma tick_task_frame s tk :
   db (tick_task s tk) = db s /\ dbFault (tick_task s tk) = dbFault s
@@ -685,6 +780,14 @@ Proof.
     intros s' H. destruct (tick_frame s') as (E & _). rewrite E. exact H.
   - rewrite take_mid_db. exact W.
   - rewrite query_index_mid_db. exact W.
+  - unfold exec_die. destruct (dbFault s); auto.
+    destruct (negb (existsb (Z.eqb n0) (nodes_of c keys))); auto. destruct w as [[u v]|].
+    + destruct (u_taken p u (db s)); auto. cbn [fst].
+      match goal with |- wf_db (db (die_keys ?a ?b ?n ?x)) => destruct (die_keys_frame a b n x) as (E & _) end.
+      rewrite E. sproj. apply wf_db_put. exact W.
+    + cbn [fst].
+      match goal with |- wf_db (db (die_keys ?a ?b ?n ?x)) => destruct (die_keys_frame a b n x) as (E & _) end.
+      rewrite E. sproj. apply wf_db_del. exact W.
 Qed.
 
 Lemma step_coh c s o :
@@ -714,6 +817,10 @@ Proof.
   - cbn [fst]. apply (iter_tick_inv coh); auto. apply tick_coh.
   - apply take_mid_coh; auto.
   - apply query_index_mid_coh; auto.
+  - unfold exec_die. destruct (dbFault s); auto.
+    destruct (negb (existsb (Z.eqb n0) (nodes_of c keys))); auto. destruct w as [[u v]|].
+    + destruct (u_taken p u (db s)); auto. cbn [fst]. apply die_keys_coh. apply exec_put_cohx; auto.
+    + cbn [fst]. apply die_keys_coh. apply exec_del_cohx; auto.
 Qed.
 
 Lemma final_coh c ops : forall s,
